@@ -110,6 +110,50 @@ func runMigration(c *core.Ctx) {
 				}
 			}
 		}
+		if !resolved {
+			// the resolution may live in a helper: key -> backwardRegistry[key] if present, else key
+			if call, isCall := mu.Value.(*ssa.Call); isCall {
+				if f := sx.Callee(call); f != nil && p.InModule(f) && f.Blocks != nil && len(call.Call.Args) == 1 && len(f.Params) == 1 {
+					sawParam, sawLookup, other := false, false, false
+					for _, r := range sx.Returns(f) {
+						if len(r.Results) != 1 {
+							other = true
+							continue
+						}
+						var visit func(v ssa.Value, d int)
+						visit = func(v ssa.Value, d int) {
+							switch x := v.(type) {
+							case *ssa.Parameter:
+								if x == f.Params[0] {
+									sawParam = true
+								} else {
+									other = true
+								}
+							case *ssa.Extract:
+								lk, isLk := x.Tuple.(*ssa.Lookup)
+								if isLk && x.Index == 0 && isGlobalLoad(lk.X, "backwardRegistry") && lk.Index == ssa.Value(f.Params[0]) {
+									sawLookup = true
+								} else {
+									other = true
+								}
+							case *ssa.Phi:
+								if d < 4 {
+									for _, e := range x.Edges {
+										visit(e, d+1)
+									}
+								} else {
+									other = true
+								}
+							default:
+								other = true
+							}
+						}
+						visit(r.Results[0], 0)
+					}
+					resolved = sawParam && sawLookup && !other
+				}
+			}
+		}
 		c.Check(resolved, "errbase.RegisterTypeMigration: previous key resolved through the registry", mu.Pos(), "CLOSE-BACK: the stored previous key is backwardRegistry[prevKey] when prevKey is itself a migrated name",
 			"the previous name is stored as given: when chained renames are registered oldest first (A->B, then B->C) the newest type is encoded under the intermediate name B instead of the original A, so the outcome depends on the registration order")
 		// CLOSE-FWD: a loop re-targets entries that point at the new key to the same stored value
@@ -123,6 +167,33 @@ func runMigration(c *core.Ctx) {
 				fwd = true
 			}
 		})
+		if !fwd {
+			// the loop may live in a helper that receives the stored value
+			sx.EachInstr(rtm, func(in2 ssa.Instruction) {
+				call, ok := in2.(*ssa.Call)
+				if !ok {
+					return
+				}
+				g := sx.Callee(call)
+				if g == nil || !p.InModule(g) || g.Blocks == nil {
+					return
+				}
+				for j, a := range call.Call.Args {
+					if a != mu.Value || j >= len(g.Params) {
+						continue
+					}
+					sx.EachInstr(g, func(in3 ssa.Instruction) {
+						mu2, ok := in3.(*ssa.MapUpdate)
+						if !ok || !isGlobalLoad(mu2.Map, "backwardRegistry") {
+							return
+						}
+						if _, isExtract := mu2.Key.(*ssa.Extract); isExtract && mu2.Value == ssa.Value(g.Params[j]) {
+							fwd = true
+						}
+					})
+				}
+			})
+		}
 		c.Check(fwd, "errbase.RegisterTypeMigration: entries pointing at the new key are re-targeted", mu.Pos(), "CLOSE-FWD: a loop over the registry stores the same previous key for them",
 			"entries registered earlier that name the new key as their previous name are not forwarded to the original name (newest-first chains break)")
 	})
@@ -471,7 +542,7 @@ func runGrpcFlow(c *core.Ctx) {
 	})
 	c.Check(fromErr != nil && argIs(fromErr, 0, herr), "server: status.FromError(err)", srv.Pos(), "applied to the handler's error itself",
 		"status.FromError is not applied to the handler's own error value (a part of the chain is inspected instead): wrappers around a status error are dropped and the visible code changes")
-	c.Check(getCode != nil && argIs(getCode, 0, herr), "server: extgrpc.GetGrpcCode(err)", srv.Pos(), "code taken from the handler's error", "the gRPC code is not computed from the handler's error")
+	sawGetCode := getCode != nil && argIs(getCode, 0, herr)
 	c.Check(encode != nil && argIs(encode, 1, herr), "server: errors.EncodeError(ctx, err)", srv.Pos(), "the handler's error itself is encoded", "the encoded detail is not the handler's error itself")
 	// the status message is the error's own text
 	sx.EachInstr(srv, func(in ssa.Instruction) {
@@ -485,10 +556,11 @@ func runGrpcFlow(c *core.Ctx) {
 		// the status of a non-nil error is never OK: gRPC reports success for an OK status and refuses to attach
 		// details to it, so the code taken from the error (which a caller may have set to codes.OK) is replaced
 		// on that edge
-		codeOK := false
-		var visitCode func(v ssa.Value, lits []lit, d int) bool
-		visitCode = func(v ssa.Value, lits []lit, d int) bool {
-			if d > 4 {
+		// codeExpr: v is never codes.OK and is the code of errVal (GetGrpcCode(errVal), also inside a helper of the
+		// package that receives errVal), a non-zero constant, or a merge of such values
+		var codeExpr func(v ssa.Value, lits []lit, errVal ssa.Value, d int) bool
+		codeExpr = func(v ssa.Value, lits []lit, errVal ssa.Value, d int) bool {
+			if d > 6 {
 				return false
 			}
 			switch x := v.(type) {
@@ -497,43 +569,72 @@ func runGrpcFlow(c *core.Ctx) {
 				return isK && k != 0
 			case *ssa.Phi:
 				for i, e := range x.Edges {
-					if !visitCode(e, edgeLits(x.Block().Preds[i], x.Block()), d+1) {
+					if !codeExpr(e, edgeLits(x.Block().Preds[i], x.Block()), errVal, d+1) {
 						return false
 					}
 				}
 				return true
 			case *ssa.Call:
-				if x != getCode {
+				callee := sx.Callee(x)
+				if callee == nil {
 					return false
 				}
-				for _, l := range lits {
-					bin, isBin := l.V.(*ssa.BinOp)
-					if !isBin {
-						continue
+				if callee.Name() == "GetGrpcCode" && len(x.Call.Args) == 1 {
+					if identity(x.Call.Args[0]) != errVal && x.Call.Args[0] != errVal {
+						return false
 					}
-					var other ssa.Value
-					if bin.X == ssa.Value(x) {
-						other = bin.Y
-					} else if bin.Y == ssa.Value(x) {
-						other = bin.X
+					if errVal == herr {
+						sawGetCode = true
 					}
-					if k, isK := sx.ConstInt(other); other != nil && isK && k == 0 {
-						if (bin.Op == token.EQL && l.Neg) || (bin.Op == token.NEQ && !l.Neg) {
-							return true
+					for _, l := range lits {
+						bin, isBin := l.V.(*ssa.BinOp)
+						if !isBin {
+							continue
 						}
+						var other ssa.Value
+						if bin.X == ssa.Value(x) {
+							other = bin.Y
+						} else if bin.Y == ssa.Value(x) {
+							other = bin.X
+						}
+						if k, isK := sx.ConstInt(other); other != nil && isK && k == 0 {
+							if (bin.Op == token.EQL && l.Neg) || (bin.Op == token.NEQ && !l.Neg) {
+								return true
+							}
+						}
+					}
+					return false
+				}
+				// a helper of the module that receives the error
+				if !p.InModule(callee) || callee.Blocks == nil {
+					return false
+				}
+				for j, a := range x.Call.Args {
+					if (identity(a) == errVal || a == errVal) && j < len(callee.Params) {
+						okAll := true
+						for _, r := range sx.Returns(callee) {
+							if len(r.Results) != 1 || !codeExpr(r.Results[0], dominatingLits(r.Block()), callee.Params[j], d+1) {
+								okAll = false
+							}
+						}
+						if okAll && errVal == herr {
+							sawGetCode = sawGetCode || helperCallsGetCode(callee, callee.Params[j])
+						}
+						return okAll
 					}
 				}
 				return false
 			}
 			return false
 		}
-		codeOK = visitCode(call.Call.Args[0], dominatingLits(call.Block()), 0)
+		codeOK := codeExpr(call.Call.Args[0], dominatingLits(call.Block()), herr, 0)
 		c.Check(codeOK, "server: status.New(code, ...) for a non-nil error", call.Pos(), "the code is never codes.OK (the error's own code, replaced when it is OK)",
 			"the status for a non-nil handler error is built with the error's code unchecked: for an error carrying codes.OK (WrapWithGrpcCode(err, codes.OK)) gRPC refuses the details - the interceptor panics - and an OK status would report success")
 		msg, isCall := call.Call.Args[1].(*ssa.Call)
 		ok2 := isCall && msg.Call.IsInvoke() && msg.Call.Method.Name() == "Error" && msg.Call.Value == herr
 		c.Check(ok2, "server: status.New(code, err.Error())", call.Pos(), "the status message is exactly the handler error's text", "the gRPC status message is not the handler error's Error() text itself (it is transformed first): the status can become unmarshalable or differ from the error")
 	})
+	c.Check(sawGetCode, "server: extgrpc.GetGrpcCode(err)", srv.Pos(), "code taken from the handler's error", "the gRPC code is not computed from the handler's error")
 	// grpc/status.Code forwards to extgrpc.GetGrpcCode, nothing else
 	if codeFn := p.Func("grpc/status", "Code"); codeFn != nil {
 		okCode := true
@@ -659,4 +760,15 @@ func runGrpcFlow(c *core.Ctx) {
 	}
 	c.Check(sawInvoker && sawDecoded, "client: both outcomes are returned", cli.Pos(), "the decoded error on some path, the invoker's error on another",
 		"the client never returns the decoded error, or never passes the invoker's error through")
+}
+
+// helperCallsGetCode: fn calls extgrpc.GetGrpcCode on its parameter p.
+func helperCallsGetCode(fn *ssa.Function, p *ssa.Parameter) bool {
+	found := false
+	sx.EachInstr(fn, func(in ssa.Instruction) {
+		if call, ok := in.(*ssa.Call); ok && sx.Callee(call) != nil && sx.Callee(call).Name() == "GetGrpcCode" && len(call.Call.Args) == 1 && call.Call.Args[0] == ssa.Value(p) {
+			found = true
+		}
+	})
+	return found
 }
